@@ -617,7 +617,7 @@ func validPair(a, b cchange) bool {
 }
 
 func genC09(o *vcoq.Out, r *vcoq.Rand, tier string) error {
-	o.Header = "From SC Require Import Base.Prelude Excess.Change Excess.MergeExcess Excess.DropExcess Excess.C09Judge.\nImport Short."
+	o.Header = "From SC Require Import Base.Prelude Excess.Change Excess.MergeExcess Excess.DropExcess Excess.ChangesAfter Excess.Pipeline Excess.C09Judge.\nImport Short."
 	o.CaseType = "c09case"
 	o.Judge = "judge"
 	o.Shard = 400
@@ -714,7 +714,19 @@ func genC09(o *vcoq.Out, r *vcoq.Rand, tier string) error {
 	}
 	addDropCases(o, dseqs, "drop:random")
 
-	// ---- 6. public API ----
+	// ---- 6. the lossy front as onUpdate assembles it, every arrival order ----
+	genLossy(o, r, thorough)
+
+	// ---- 7. the assembled pipeline through Collection.Pull, parked writers ----
+	if err := genPipe(o, r, thorough); err != nil {
+		return err
+	}
+
+	if err := genVPipe(o, r, thorough); err != nil {
+		return err
+	}
+
+	// ---- 8. public API ----
 	if err := genAPI(o, r, thorough); err != nil {
 		return err
 	}
